@@ -1091,7 +1091,6 @@ func notDocumentContent(p *Program, owner *types.Named, fv *types.Var) string {
 	return why
 }
 
-
 // registryEntriesMutated: some module function ranges over the registry map held in field mapField
 // and passes a value reached from an entry to a function that stores through that argument — a
 // static callee whose mutation summary writes the parameter, or a function-valued parameter whose
